@@ -523,6 +523,9 @@ func main() {
 			h.cacheCase(s, s2, signedV)
 			h.cacheCase(s2, s, signedV)
 		}
+		// 4d'. every ordered pair (and some triples) of signers on ONE object, for the valid tx and its
+		//      malleated / V / chain variants; other cache-filling paths; copies of a cached object
+		h.cacheMatrix(i, s, signed, signedV, i < c.Scale(3, 24))
 		// 4e. RLP and JSON round trips keep hash and sender
 		h.roundTrips(s, signed, signedV, want)
 	}
@@ -1119,6 +1122,174 @@ func (h *harness) cacheCase(s1, s2 sgn, t txv) {
 	}
 }
 
+// ------------------------------------------------------------ the `from` cache across signers
+
+// cacheVariants: the signed transaction and the variants on which different signers disagree
+func cacheVariants(t txv, s sgn, idx int) []mutation {
+	var l []mutation
+	add := func(kind string, f func(m *txv)) {
+		m := t.clone()
+		f(&m)
+		l = append(l, mutation{kind, m})
+	}
+	bit := int64(0)
+	if new(big.Int).Sub(t.v, flipV(t, s)).Sign() > 0 {
+		bit = 1
+	}
+	add("valid", func(m *txv) {})
+	add("malleated(r,N-s,v^1)", func(m *txv) { m.s.Sub(secpN, m.s); m.v = flipV(t, s) })
+	add("s->N-s", func(m *txv) { m.s.Sub(secpN, m.s) })
+	add("v-flip", func(m *txv) { m.v = flipV(t, s) })
+	if s.c != nil && s.c.Sign() != 0 {
+		add("v->unprotected", func(m *txv) { m.v = big.NewInt(27 + bit) })
+		add("v->unprotected,malleated", func(m *txv) { m.s.Sub(secpN, m.s); m.v = big.NewInt(28 - bit) })
+	} else {
+		cid := chainIDs[idx%len(chainIDs)]
+		add("v->protected", func(m *txv) { m.v = new(big.Int).Add(big.NewInt(35+bit), new(big.Int).Mul(cid, big.NewInt(2))) })
+	}
+	add("v+256", func(m *txv) { m.v.Add(m.v, big.NewInt(256)) })
+	return l
+}
+
+func cacheSigners(s sgn, idx int) []sgn {
+	own := chainIDs[idx%len(chainIDs)]
+	if s.c != nil && s.c.Sign() != 0 {
+		own = s.c
+	}
+	foreign := chainIDs[(idx+1)%len(chainIDs)]
+	if foreign.Cmp(own) == 0 {
+		foreign = chainIDs[(idx+2)%len(chainIDs)]
+	}
+	return []sgn{frontier(), homestead(), eip155(own), eip155(foreign), eip155(big.NewInt(0))}
+}
+
+func kind(s sgn) string { return strings.SplitN(s.tok, ":", 2)[0] }
+
+// seqOracle: the answers a sequence of cache-using queries gave on one object must each equal
+// the answer of Signer.Sender on a fresh copy
+func (h *harness) seqOracle(path string, seq []sgn, got []string, fresh map[string]string, t txv) {
+	for i := range seq {
+		if got[i] != fresh[seq[i].tok] {
+			toks := make([]string, len(seq))
+			kinds := make([]string, len(seq))
+			for j, x := range seq {
+				toks[j], kinds[j] = x.tok, kind(x)
+			}
+			h.c.Violate("cache-unsound/"+path+"/"+strings.Join(kinds[:i+1], "-then-")+"/"+t.token(),
+				"types.Sender answered query "+fmt.Sprint(i+1)+" of a sequence on one transaction object differently from a fresh copy of the transaction (a cached sender was handed to a signer with other rules)",
+				map[string]string{"path": path, "sequence": strings.Join(toks, ";"), "rlp": vh.Hex(t.rlp()), "tx": t.token(), "got": strings.Join(got, " | "), "fresh_answer_for_query": fresh[seq[i].tok], "failing_query": fmt.Sprint(i + 1)})
+			return
+		}
+	}
+}
+
+func (h *harness) cacheMatrix(idx int, s sgn, signedObj *types.Transaction, signed txv, withModel bool) {
+	c, r := h.c, h.c.Rng
+	set := cacheSigners(s, idx)
+	for _, va := range cacheVariants(signed, s, idx) {
+		t := va.t
+		fresh := map[string]string{}
+		for _, b := range set {
+			fresh[b.tok], _, _ = signerSender(b, t.build())
+		}
+		tbl := ""
+		if withModel {
+			tbl = ecTable(t, t.build(), set)
+		}
+		run := func(path string, seq []sgn, model bool) {
+			tx := t.build()
+			got := make([]string, len(seq))
+			toks := make([]string, len(seq))
+			for i, x := range seq {
+				toks[i] = x.tok
+				if path == "AsMessage-then-Sender" && i == 0 {
+					vh.CatchPanic(func() {
+						msg, err := tx.AsMessage(x.s)
+						if err != nil {
+							got[i] = classify(err)
+						} else {
+							f := msg.From()
+							got[i] = "ok " + vh.Hex(f[:])
+						}
+					})
+				} else {
+					got[i] = cachedSender(x, tx)
+				}
+			}
+			c.Eval(fmt.Sprintf("cache%d/%s/%s", len(seq), path, va.kind), "")
+			c.Count("cache-seq:" + kind(seq[0]) + "-then-" + kind(seq[1]))
+			h.seqOracle(path, seq, got, fresh, t)
+			if model {
+				c.Correspond("types.Sender sequence on one object~sender_cached", strings.Join(toks, ";")+" "+t.token(), strings.Join(got, " | "),
+					h.m.Ask("sendern "+strings.Join(toks, ";")+" "+t.token()+" "+tbl))
+			}
+		}
+		for _, a := range set {
+			for _, b := range set {
+				run("Sender-then-Sender", []sgn{a, b}, withModel)
+				run("AsMessage-then-Sender", []sgn{a, b}, false)
+			}
+		}
+		for k := 0; k < 6; k++ {
+			run("Sender-x3", []sgn{set[r.Intn(len(set))], set[r.Intn(len(set))], set[r.Intn(len(set))]}, withModel && k < 2)
+		}
+		// copies of an object whose cache was filled under a: decoded from its RLP, decoded from its JSON,
+		// WithSignature (another signature attached): none may inherit the cached sender
+		for _, a := range set {
+			tx := t.build()
+			first := cachedSender(a, tx)
+			enc, _ := rlp.EncodeToBytes(tx)
+			viaRLP := new(types.Transaction)
+			rlp.DecodeBytes(enc, viaRLP)
+			copies := map[string]*types.Transaction{"rlp-copy": viaRLP}
+			if js, err := tx.MarshalJSON(); err == nil {
+				viaJSON := new(types.Transaction)
+				if viaJSON.UnmarshalJSON(js) == nil {
+					copies["json-copy"] = viaJSON
+				}
+			}
+			for name, cp := range copies {
+				for _, b := range set {
+					if got := cachedSender(b, cp); got != fresh[b.tok] {
+						c.Violate("cache-unsound/"+name+"/"+kind(a)+"-then-"+kind(b)+"/"+t.token(), "a copy of a transaction whose sender was cached answers differently from a fresh transaction",
+							map[string]string{"path": name, "sequence": a.tok + ";" + b.tok, "rlp": vh.Hex(t.rlp()), "got": got, "fresh_answer_for_query": fresh[b.tok]})
+					}
+					c.Eval("cache-copy/"+name, "")
+				}
+			}
+			// WithSignature: attach the malleated twin of the signature under signer b
+			for _, b := range set {
+				sig := append(append(pad32(t.r), pad32(new(big.Int).Mod(new(big.Int).Sub(secpN, t.s), two256))...), byte(r.Intn(2)))
+				var cp *types.Transaction
+				vh.CatchPanic(func() { cp, _ = tx.WithSignature(b.s, sig) })
+				if cp == nil {
+					continue
+				}
+				want, _, _ := signerSender(b, fromTx(cp).build())
+				if got := cachedSender(b, cp); got != want {
+					c.Violate("cache-unsound/with-signature/"+kind(a)+"-then-"+kind(b)+"/"+t.token(), "WithSignature returned an object that still answers with the sender cached on the original",
+						map[string]string{"path": "with-signature", "sequence": a.tok + ";" + b.tok, "rlp": vh.Hex(t.rlp()), "sig": vh.Hex(sig), "got": got, "fresh_answer_for_query": want})
+				}
+				c.Eval("cache-copy/with-signature", "")
+			}
+			if again := cachedSender(a, tx); again != first {
+				c.Violate("cache-unsound/original-after-copies/"+kind(a)+"/"+t.token(), "the original object's answer changed after copies were made", map[string]string{"rlp": vh.Hex(t.rlp()), "first": first, "again": again})
+			}
+		}
+	}
+	// the object types.SignTx returned (it ran signer.Sender on it): queried under every signer in turn
+	if signedObj != nil {
+		fresh := map[string]string{}
+		got := make([]string, len(set))
+		for i, b := range set {
+			fresh[b.tok], _, _ = signerSender(b, signed.build())
+			got[i] = cachedSender(b, signedObj)
+		}
+		c.Eval("cache/SignTx-object-then-all-signers", "")
+		h.seqOracle("SignTx-object", set, got, fresh, signed)
+	}
+}
+
 func (h *harness) roundTrips(s sgn, signed *types.Transaction, t txv, want common.Address) {
 	c := h.c
 	enc, _ := rlp.EncodeToBytes(signed)
@@ -1227,7 +1398,36 @@ func replay(h *harness, file string) {
 		cid, _ := new(big.Int).SetString(strings.TrimPrefix(tok, "E:0x"), 16)
 		s = eip155(cid)
 	default:
-		h.c.Fatal("replay: no signer")
+		if rp.Replay["sequence"] == "" {
+			h.c.Fatal("replay: no signer")
+		}
+	}
+	if seq := rp.Replay["sequence"]; seq != "" {
+		// a sequence of types.Sender queries on one object vs fresh copies
+		t := fromTx(tx)
+		var sq []sgn
+		for _, tok := range strings.Split(seq, ";") {
+			switch {
+			case tok == "F":
+				sq = append(sq, frontier())
+			case tok == "H":
+				sq = append(sq, homestead())
+			default:
+				cid, _ := new(big.Int).SetString(strings.TrimPrefix(tok, "E:0x"), 16)
+				sq = append(sq, eip155(cid))
+			}
+		}
+		fresh := map[string]string{}
+		got := make([]string, len(sq))
+		obj := t.build()
+		for i, x := range sq {
+			fresh[x.tok], _, _ = signerSender(x, t.build())
+			got[i] = cachedSender(x, obj)
+		}
+		h.c.Eval("replay/cache-sequence", "")
+		h.seqOracle("Sender-then-Sender", sq, got, fresh, t)
+		h.c.Note("replay: sequence %s on %s -> %s (fresh: %v)", seq, t.token(), strings.Join(got, " | "), fresh)
+		return
 	}
 	t := fromTx(tx)
 	if orig := rp.Replay["original"]; orig != "" {
